@@ -38,8 +38,9 @@ fn classify(r: &Result<BootInformation, LoadError>) -> Verdict {
     }
 }
 
-const LAST8: [&str; 8] = [
+const LAST8: [&str; 11] = [
     "end-tag", "type!=0", "size=0", "size=7", "size=9", "size=16", "size=ffffffff", "random",
+    "type=one-high-bit", "size=8+one-high-bit", "type=one-low-bit",
 ];
 
 impl C02 {
@@ -59,6 +60,10 @@ impl C02 {
                 4 => (0, 9),
                 5 => (0, 16),
                 6 => (0, 0xffff_ffff),
+                // single-bit neighbours of a valid end tag
+                8 => (1 << (16 + ctx.rng.below(16)), 8),
+                9 => (0, 8 | (1 << (4 + ctx.rng.below(28)))),
+                10 => (1 << ctx.rng.below(16), 8),
                 _ => (ctx.rng.u32(), ctx.rng.u32()),
             };
             put32(&mut mem, o, t);
@@ -80,7 +85,7 @@ impl C02 {
                 ("expected", J::s(format!("{:?}", expect))),
             ])
         };
-        if ctx.want_sample() && ts >= 8 && variant == (ts as usize / 8) % 8 {
+        if ctx.want_sample() && ts >= 8 && variant == (ts as usize / 8) % LAST8.len() {
             ctx.sample(desc());
         }
         match out {
@@ -157,7 +162,7 @@ impl Driver for C02 {
         };
         let marker = ctx.rng.u32() | 1;
         for reserved in [0u32, marker] {
-            for variant in 0..8 {
+            for variant in 0..LAST8.len() {
                 self.one(ctx, ts, reserved, variant);
             }
         }
